@@ -126,6 +126,9 @@ func propC09(c *Ctx, r *Report) {
 	c.ruleImageAtomicNoCompare(r)
 	c.runBalance(r, "pairing.scope", scopeBracket)
 	c.runScopePerBlock(r, "scope.perblock", lowerScopeSpec)
+	r.Clauses = append(r.Clauses, resolutionClause)
+	c.runResolutionSiblings(r, "resolution.siblings", inPkgs("wgsl", "ir"), nil)
+	r.floor("resolution.siblings", 2)
 	r.Clauses = append(r.Clauses, colVecClause)
 	c.runColVec(r, "shape.colvec", inPkgs("wgsl", "ir"))
 	r.floor("shape.colvec", 10)
